@@ -280,8 +280,11 @@ def run_histories(hists, base: Path, nproc: int = 16):
                                   "events": list(r.get("evs", [])), "late": list(r.get("late", [])), "stacks": None, "cls": "hung"})
             elif r["follow"] is None and not hung:
                 if stuck or r["p"].exitcode != 0 or len(r["runs"]) < len(r["progs"]):
+                    # SIGKILL / SIGTERM that did not come from here (the machine's out-of-memory killer, a stray pkill)
+                    # says nothing about the library: class "killed" (re-executed; machinery failure if it stays)
+                    external = not stuck and r["p"].exitcode in (-9, -15)
                     r["runs"].append({"k": len(r["runs"]), "elapsed": None, "out": None, "exc": f"child died (exit {r['p'].exitcode})",
-                                      "events": None, "late": [], "stacks": None, "cls": "exception"})
+                                      "events": None, "late": [], "stacks": None, "cls": "killed" if external else "exception"})
             results[r["hi"]] = {"runs": r["runs"], "follow": r["follow"]}
             running.remove(r)
     return [results[i] for i in range(len(hists))]
@@ -358,6 +361,8 @@ def fresh_follow(base: Path):
 
 def judge(o, c, run, follow, fresh, where, recheck=None):
     """Compare one observed run with the demand / the model."""
+    if run["cls"] == "killed":
+        raise RuntimeError(f"{key(c)} ({where}): the child process was killed from outside, twice ({run['exc']}): machine out of memory?")
     real = obs_class(run["cls"])
     want = c["demand"]
     case = {"kind": "G", "program": {"body": c["body"], "wrap": c["wrap"]}, "lua": render(c["body"], c["wrap"]),
@@ -467,9 +472,12 @@ def run_sessions(sessions, base: Path, nproc: int = 16):
                 except EOFError:
                     break
             if not pr.is_alive() or time.time() > deadline:
-                if pr.is_alive():
+                ours = pr.is_alive()
+                if ours:
                     pr.kill()
                 pr.join()
+                if not ours and pr.exitcode in (-9, -15):   # killed from outside (out-of-memory killer, stray pkill)
+                    got.append((-1, "killed", 0.0, None))
                 while pc.poll(0):
                     try:
                         got.append(pc.recv())
@@ -514,6 +522,8 @@ def check_sessions(o, d: Path):
     res = run_sessions([c["sess"] for c in cases], d / "sessions")
 
     def first_mismatch(c, got):
+        if any(g[1] == "killed" for g in got):
+            return -1
         by = {g[0]: g for g in got}
         for j, stj in enumerate(c["sess"]):
             if session_outcome(stj, by.get(j)) != c["out"][j]:
@@ -538,6 +548,8 @@ def check_sessions(o, d: Path):
                 still.append(i)
         suspects = still
     for c, got in zip(cases, res):
+        if any(g[1] == "killed" for g in got):
+            raise RuntimeError(f"session {[x['k'] for x in c['sess']]}: the child process was killed from outside in every execution: machine out of memory?")
         o.traces += 1
         o.shape(("session", common.json_key(c["sess"])))
         by_i = {g[0]: g for g in got}
@@ -547,7 +559,9 @@ def check_sessions(o, d: Path):
             if real != c["out"][i]:
                 o.violation({"kind": "session", "session": c["sess"], "step": i, "observed": real, "required": c["out"][i],
                              "detail": [list(g) for g in got]},
-                            f"step {i} ({st['k']}, limit {st['lim']}) of the session {[x['k'] for x in c['sess']]} gave {real!r}; every invocation must run under its own limit: {c['out'][i]!r}",
+                            f"step {i} ({st['k']}, limit {st['lim']}) of the session {[x['k'] for x in c['sess']]} gave {real!r}; every invocation must run under its own limit: {c['out'][i]!r}"
+                            + (" (the endless loop runs in a NESTED invocation made by this one: the limit has to end the invocation the caller made, "
+                               "not only the nested one)" if st["k"] in ("nspin", "nlspin") else ""),
                             cls="session-" + st["k"])
                 break
     o.sample({"session": cases[0]["sess"], "required": cases[0]["out"]})
